@@ -116,6 +116,44 @@ fn probe_locked(post: &Ledger, position: &Pubkey, token_account: &Pubkey, salt: 
             encodings.push((label, f, k));
         }
     }
+    {
+        // not the token at all: a second, empty and unfrozen token account of the position mint that the holder owns
+        let mut d = ta.data[..165].to_vec();
+        d[64..72].copy_from_slice(&0u64.to_le_bytes());
+        d[108] = 1; // initialised, not frozen
+        let mut d2 = d.clone();
+        if ta.data.len() > 165 {
+            d2.extend_from_slice(&ta.data[165..]);
+        }
+        let mut f = post.clone();
+        let k = crate::world::scratch_key(salt, 8190);
+        f.put(k, crate::rt::Account::new(crate::world::rent_min(d2.len()), d2, ta.owner));
+        encodings.push(("second, empty and unfrozen token account of the position mint", f, k));
+    }
+    // "a locked position can still add liquidity": a small deposit by the holder through the frozen token account must go
+    // through whenever the very same deposit goes through on a copy where the token account is merely not frozen
+    {
+        let la = crate::ix::LiqAccounts { pool: keys.clone(), authority: holder, position: *position, position_token_account: *token_account, owner_a: oa, owner_b: ob, ta_lower: arr(p.lower), ta_upper: arr(p.upper) };
+        let small = 1 + (salt % 1000) as u128;
+        let mut frozen_copy = post.clone();
+        let r_frozen = crate::rt::exec_tx_simple(&mut frozen_copy, &crate::rt::Tx { ixs: vec![crate::ix::increase_liquidity_v2(&la, small, u64::MAX, u64::MAX)] });
+        if !r_frozen.ok {
+            let mut thawed = post.clone();
+            if let Some(a) = thawed.accts.get_mut(token_account) {
+                let mut od = (*a.data).clone();
+                od[108] = 1;
+                a.data = std::rc::Rc::new(od);
+            }
+            let r_thawed = crate::rt::exec_tx_simple(&mut thawed, &crate::rt::Tx { ixs: vec![crate::ix::increase_liquidity_v2(&la, small, u64::MAX, u64::MAX)] });
+            cov.eval(format!("locked_probe|small deposit|frozen_ok=false|thawed_ok={}", r_thawed.ok));
+            if r_thawed.ok {
+                out.push(viol("locked_position_operation_refused", idx, format!("increase_liquidity_v2 of {} is refused ({:?}) on the locked position {} although the same deposit goes through when its token account is not frozen: adding liquidity must stay possible", small, r_frozen.custom(), position)));
+                return;
+            }
+        } else {
+            cov.probe("locked_position_small_deposit_accepted");
+        }
+    }
     for (label, f, tk) in encodings {
         let la = crate::ix::LiqAccounts { pool: keys.clone(), authority: holder, position: *position, position_token_account: tk, owner_a: oa, owner_b: ob, ta_lower: arr(p.lower), ta_upper: arr(p.upper) };
         let (nlo, nhi) = (p.lower, p.upper + sp as i32);
